@@ -195,6 +195,7 @@ Lemma request_pipeline e peer peer_port from rs tcp m0 x x' :
     let '(m1, r) := next_request_hop (c_keep_next_hop (e_cfg e)) (route_table_of (e_cfg e)) m4 in
     (forall nm, disjoint_names nm (s2b "Via") -> disjoint_names nm (s2b "CSeq") ->
                 disjoint_names nm (s2b "Route") -> frame nm m0 m4) /\
+    via_rel m0 m4 /\
     route_view m4 = match route_view m0 with
                     | EDec e1 :: rest => if designates (e_cfg e) from e1 then rest else route_view m0
                     | _ => route_view m0
@@ -207,7 +208,7 @@ Lemma request_pipeline e peer peer_port from rs tcp m0 x x' :
                     else (x1, m1)
              end.
 Proof.
-  intros R H. destruct (process_message_request _ _ _ _ _ _ _ _ _ R H) as (m3 & p1 & F & SR & ->).
+  intros R H. destruct (process_message_request _ _ _ _ _ _ _ _ _ R H) as (m3 & p1 & F & VR & SR & ->).
   set (m4 := fst (mtry (try_remove_top_route (e_cfg e) from) m3)).
   exists m4, p1. cbv zeta.
   assert (F4 : forall nm, disjoint_names nm (s2b "Route") -> frame nm m3 m4).
@@ -218,6 +219,7 @@ Proof.
   rewrite (handle_message_request e from m4 _ R4). cbn [x_learned].
   destruct (next_request_hop _ _ m4) as [m1 r].
   split; [intros nm D1 D2 D3; eapply frame_trans; [apply F; assumption|apply F4; assumption]|].
+  split; [exact (via_rel_trans _ _ _ VR (via_rel_frame _ _ (F4 _ dj_Via_Route)))|].
   split; [|split; [exact SR|reflexivity]].
   subst m4. rewrite try_remove_top_route_pops_iff_own.
   rewrite (route_view_frame m0 m3 (F _ dj_Route_Via dj_Route_CSeq)). reflexivity.
@@ -268,7 +270,7 @@ Proof.
   intros e peer pp from rs tcp m0 x x' R H.
   destruct (request_pipeline _ _ _ _ _ _ _ _ _ R H) as (m4 & p1 & P). cbv zeta in P.
   pose proof (next_request_hop_route (c_keep_next_hop (e_cfg e)) (route_table_of (e_cfg e)) m4) as NR.
-  destruct (next_request_hop _ _ m4) as [m1 r]. cbn [fst] in NR. destruct P as (_ & V4 & _ & ->).
+  destruct (next_request_hop _ _ m4) as [m1 r]. cbn [fst] in NR. destruct P as (_ & _ & V4 & _ & ->).
   set (x1 := {| x_learned := learned_after peer from m0 x; x_p := p1; x_conns := x_conns x;
                 x_world := x_world x; x_outs := x_outs x |}).
   assert (V1 : route_view m1 = skipn (route_consumed (e_cfg e) from (c_keep_next_hop (e_cfg e)) (route_view m0))
